@@ -172,6 +172,57 @@ def r_cfgdiff_nightly(cx, st_tag="dev-none-stable", ni_tag="dev-none-nightly"):
     cx.count("R-FALLIBLE-APPEND", "sites", n)
 
 
+def macrosep_truth(cx, tag="dev-msep-stable"):
+    """Truth table of the pure predicate macro::needs_macro_sep(prev, tok) over all Option<TokenType> x TokenType,
+    obtained by constant-folding its HIR with LEA's evaluator (no shape assumptions about how it is written).
+    Returns {"variants": [...], "true": {prev_name_or_None: [tok...]}, "undecided": n}."""
+    import json as _json
+    import os
+    from . import lea, lea_engine
+    key = ("macrosep_truth", tag)
+    if key in cx._facts:
+        return cx._facts[key]
+    fx = cx.facts(tag)
+    out_path = os.path.join(cx.cdir, "macrosep-truth-%s-%s.json" % (tag, lea_engine.engine_hash()))
+    if os.path.exists(out_path):
+        with open(out_path) as f:
+            cx._facts[key] = _json.load(f)
+        return cx._facts[key]
+    names = [k for k in fx.bodies if k == "macro::needs_macro_sep"]
+    a = fx.adts.get("token_type::TokenType")
+    if not names or not a:
+        cx._facts[key] = None
+        return None
+    vs = [v["name"] for v in a["variants"]]
+    I = lea.Interp(fx, budget=10 ** 7)
+    I.probe_enabled = False
+    I.prune = False
+    T = lambda v: lea.Enum("token_type::TokenType::" + v)
+    true = {}
+    undecided = 0
+    for pn in [None] + vs:
+        p_ = lea.NONE if pn is None else lea.Enum("Some", [T(pn)])
+        row = []
+        for t in vs:
+            try:
+                outs = I.run_fn(names[0], lea.St(), [p_, T(t)])
+            except (lea.Unanalysed, lea.Budget):
+                outs = []
+            vals = {getattr(o.val, "v", None) for o in outs}
+            if len(outs) < 1 or not vals <= {True, False} or len(vals) != 1:
+                undecided += 1
+            elif True in vals:
+                row.append(t)
+        true["None" if pn is None else pn] = row
+    d = {"variants": vs, "true": true, "undecided": undecided}
+    tmp = out_path + ".tmp%d" % os.getpid()
+    with open(tmp, "w") as f:
+        _json.dump(d, f)
+    os.replace(tmp, out_path)
+    cx._facts[key] = d
+    return d
+
+
 def r_cfgdiff_macrosep(cx, off_tag="dev-none-stable", on_tag="dev-msep-stable"):
     """Feature-only code may only read and emit/insert MacroSep guarded by needs_macro_sep (C18)."""
     rule = "R-CFGDIFF-MACROSEP"
@@ -255,31 +306,19 @@ def r_cfgdiff_macrosep(cx, off_tag="dev-none-stable", on_tag="dev-msep-stable"):
                 cx.ob("R-INSERT-PROVENANCE", "%s|insert_token|triple" % name.replace("Lexer::", ""), okp, F.file_line(F.site(x)),
                       "the inserted token copies byte offset, char offset and line of one and the same token (%s)" % bases[0] if okp else
                       "insert_token position triple is not taken from one token record: %s" % list(zip(bases, flds)))
-    # the predicate itself
+    # the predicate itself: its full truth table, by constant folding (independent of how it is written)
     b = f1.fn("macro::needs_macro_sep")
-    if b is None:
+    tt = macrosep_truth(cx, on_tag) if b is not None else None
+    if b is None or tt is None:
         cx.violation("R-MACROSEP-GUARD", "needs_macro_sep|missing", "", "needs_macro_sep not found in the macro_sep configuration")
     else:
-        matches = [x for x, _ in F.walk(b["hir"]) if x.get("k") == "Match"]
-        first = second = None
-        for m in matches:
-            names = set()
-            for a in m["arms"]:
-                for node, _ in F.walk(a["pat"]):
-                    if node.get("k") in ("Expr", "Path"):
-                        r = (node.get("res") or node.get("e", {}).get("res") or {})
-                        d = F.norm(r.get("def", "")) if r else ""
-                        if d:
-                            names.add(d.split("::")[-1])
-            scr = field_chain(m["scrut"])[-1]
-            if scr == "prev_token_type":
-                first = names
-            elif scr == "tok_type":
-                second = names
-        need = {"None", "SEMI", "MacroLabel", "KwmThen", "KwmElse"}
-        ok1 = first is not None and need <= first
-        cx.ob("R-MACROSEP-GUARD", "needs_macro_sep|prev-exclusions", ok1, b["span"],
-              "no separator after None/SEMI/MacroLabel/%then/%else" if ok1 else "needs_macro_sep no longer excludes %s as previous token" % sorted(need - (first or set())))
+        cx.ob("R-MACROSEP-GUARD", "needs_macro_sep|decided", tt["undecided"] == 0, b["span"],
+              "needs_macro_sep folds to a constant for all %d x %d arguments" % (len(tt["variants"]) + 1, len(tt["variants"])) if tt["undecided"] == 0 else
+              "needs_macro_sep could not be evaluated for %d argument pairs (fail-closed)" % tt["undecided"])
+        bad_prev = {p_: tt["true"].get(p_, []) for p_ in ("None", "SEMI", "MacroLabel", "KwmThen", "KwmElse") if tt["true"].get(p_)}
+        cx.ob("R-MACROSEP-GUARD", "needs_macro_sep|prev-exclusions", not bad_prev, b["span"],
+              "no separator after start of input / ';' / label / %then / %else, for every following token type" if not bad_prev else
+              "needs_macro_sep is true directly after %s" % ", ".join("%s (before %s)" % (p_, v[:3]) for p_, v in sorted(bad_prev.items())))
         a = f1.adts.get("token_type::TokenType")
         stat = set()
         if a:
@@ -290,9 +329,14 @@ def r_cfgdiff_macrosep(cx, off_tag="dev-none-stable", on_tag="dev-msep-stable"):
                 ds = [discr[n.split("::")[-1]] for n in ns if n and n.split("::")[-1] in discr]
                 if len(ds) >= 2:
                     stat = {n for n, d in discr.items() if min(ds) <= d <= max(ds)}
-        ok2 = second is not None and (second - {"MacroLabel"}) <= stat and second
+        targets = set()
+        for p_, row in tt["true"].items():
+            targets.update(row)
+        ok2 = bool(targets) and bool(stat) and (targets - {"MacroLabel"}) <= stat
         cx.ob("R-MACROSEP-GUARD", "needs_macro_sep|targets", bool(ok2), b["span"],
-              "separators only before macro statement keywords / labels" if ok2 else "needs_macro_sep targets non-statement token types %s" % sorted((second or set()) - stat - {"MacroLabel"}))
+              "separators only before macro statement keywords / labels (%d target types)" % len(targets) if ok2 else
+              "needs_macro_sep is true before non-statement token types %s" % sorted(targets - stat - {"MacroLabel"})[:6])
+        cx.count("R-MACROSEP-GUARD", "truth_rows", len(tt["true"]))
     cx.count(rule, "differing_functions", len(differing))
     cx.count("R-MACROSEP-GUARD", "emissions", nsep)
 
@@ -368,6 +412,49 @@ def r_state_inventory(cx, tags=("dev-none-stable", "dev-all-stable")):
     cx.count(rule, "items", n)
 
 
+def is_constant(n):
+    n = F.strip(n)
+    k = n.get("k")
+    if k == "Lit":
+        return True
+    if k == "Path":
+        return n.get("res", {}).get("dk", "").startswith(("Const", "AssocConst"))
+    if k == "Call":
+        d = F.norm(n.get("def") or "")
+        if d.endswith("::default") or d.endswith("::new") or d.endswith("::from") or d.endswith("::into"):
+            return all(is_constant(a) for a in n.get("args", []))
+    if k == "MethodCall" and n.get("name") in ("into", "get"):
+        return is_constant(n["recv"])
+    if k == "Cast":
+        return is_constant(n["e"])
+    return False
+
+
+def is_position(n):
+    """Does the expression denote a position in the source (token start / cursor offset), not a length?"""
+    n = F.strip(n)
+    k = n.get("k")
+    if k == "Field":
+        return n.get("name") in ("cur_token_byte_offset", "cur_token_start", "byte_offset", "start", "at_byte_offset", "at_char_offset") or \
+            (n.get("name") == "0" and is_position(n["base"]))
+    if k == "MethodCall":
+        if n.get("name") in ("cur_byte_offset", "cur_char_offset", "char_offset"):
+            return True
+        if n.get("name") in ("into", "get"):
+            return is_position(n["recv"])
+        return False
+    if k == "Call":
+        d = F.norm(n.get("def") or "")
+        if d.endswith("::from") or d.endswith("::into"):
+            return any(is_position(a) for a in n.get("args", []))
+    if k == "Cast":
+        return is_position(n["e"])
+    if k == "Path":
+        nm = n.get("res", {}).get("name") or ""
+        return "offset" in nm and "len" not in nm
+    return False
+
+
 def r_no_absolute(cx, tags=("dev-none-stable", "dev-msep-stable")):
     """History lengths (token count, line count, error count) never decide control flow in the lexer (C15/C17)."""
     rule = "R-NO-ABSOLUTE"
@@ -397,6 +484,37 @@ def r_no_absolute(cx, tags=("dev-none-stable", "dev-msep-stable")):
                         decides = True
                 if decides and not in_assert and name != "Lexer::prep_error_info_at_cur_offset":
                     hits.append((name, nm, F.file_line(F.site(x))))
+    # absolute offsets compared with a constant (`cur_token_byte_offset == ByteOffset::default()`, `char_offset() < 3`):
+    # a BOM or any closed prefix shifts every offset, so such a test changes what is lexed afterwards
+    from .rules_struct import Units, BYTE, CHAR
+    abs_sites = 0
+    abs_hits = []
+    for tag in tags:
+        fx = cx.facts(tag)
+        for name, b in fx.bodies.items():
+            if not (name.startswith("Lexer::") or name.startswith("macro::")) or fx.is_derive(name):
+                continue
+            U = None
+            for x, par in live_walk(b["hir"]):
+                if x.get("k") != "Binary" or x.get("op") not in ("Eq", "Ne", "Lt", "Le", "Gt", "Ge"):
+                    continue
+                if U is None:
+                    U = Units(fx, name, b)
+                ul, ur = U.unit(x["l"]), U.unit(x["r"])
+                if not ((ul in (BYTE, CHAR) and is_constant(x["r"])) or (ur in (BYTE, CHAR) and is_constant(x["l"]))):
+                    continue
+                side = x["l"] if ul in (BYTE, CHAR) else x["r"]
+                if not is_position(side):
+                    continue       # a length / distance, not a position in the source
+                abs_sites += 1
+                if any("assert" in (p.get("mac") or "") for p in par) or "assert" in (x.get("mac") or ""):
+                    continue
+                abs_hits.append((name, F.file_line(F.site(x))))
+    for name, site in abs_hits:
+        cx.violation(rule, "%s|absolute-offset" % name, site, "%s branches on an absolute source offset compared with a constant: a leading BOM "
+                     "or any closed prefix shifts all offsets, so the same text lexes differently at a different position" % name)
+    cx.ob(rule, "no-absolute-offset-branch", not abs_hits, "", ("no lexer control flow compares a source position with a constant (%d candidate comparisons)" % abs_sites)
+          if not abs_hits else "%d branch(es) on an absolute source offset" % len(abs_hits))
     for name, nm, site in hits:
         cx.violation(rule, "%s|%s" % (name, nm), site, "%s branches on the history length %s(): what was lexed before a closed boundary changes later lexing" % (name, nm))
     cx.ob(rule, "no-history-branch", not hits, "", "no lexer control flow depends on token/line/error counts (%d reads inspected)" % sites)
@@ -404,40 +522,15 @@ def r_no_absolute(cx, tags=("dev-none-stable", "dev-msep-stable")):
 
 
 def r_lookbehind(cx, tags=("dev-none-stable", "dev-msep-stable")):
-    """Statement-start look-behind treats 'no previous token' like 'previous token is ;' (C15/C17)."""
+    """Statement-start look-behind treats 'no previous token' like 'previous token is ;' (C15/C17/C18).
+    The datalines half is decided on LEA's paths (R-DATALINES-START); here: needs_macro_sep, by its truth table."""
     rule = "R-LOOKBEHIND"
     cx.rules_run.append(rule)
-    fx = cx.facts(tags[0])
-    b = fx.fn("Lexer::lex_datalines")
-    ok = False
-    if b:
-        # if let Some(tok) = last_default { if tok.token_type != SEMI { return false } }   (None falls through)
-        for x, par in F.walk(b["hir"]):
-            if x.get("k") == "If" and x["cond"].get("k") == "LetCond":
-                init = F.strip(x["cond"]["init"])
-                if init.get("k") == "MethodCall" and init.get("name") == "last_token_info_on_default_channel":
-                    pat = x["cond"]["pat"]
-                    some = pat.get("k") == "TupleStruct" and F.norm(pat["res"].get("def", "")).endswith("Some")
-                    inner_ret = [y for y, _ in F.walk(x["then"]) if y.get("k") == "Ret"]
-                    cond_semi = contains(x["then"], lambda y: y.get("k") == "Binary" and y.get("op") == "Ne" and F.const_of(F.strip(y["r"])) == "token_type::TokenType::SEMI")
-                    else_ret = x.get("else") is not None and contains(x["else"], lambda y: y.get("k") == "Ret")
-                    ok = some and inner_ret and cond_semi and not else_ret
-    cx.ob(rule, "lex_datalines|none-equals-semi", ok, b["span"] if b else "",
-          "datalines look-behind accepts exactly {no previous DEFAULT token, SEMI}" if ok else
-          "lex_datalines does not treat 'no previous token' and 'previous token is ;' alike")
     fx1 = cx.facts(tags[1])
     b2 = fx1.fn("macro::needs_macro_sep")
-    ok2 = False
-    if b2:
-        for m, _ in F.walk(b2["hir"]):
-            if m.get("k") == "Match" and field_chain(m["scrut"])[-1] == "prev_token_type":
-                names = set()
-                for a in m["arms"]:
-                    for node, _p in F.walk(a["pat"]):
-                        r = node.get("res") or (node.get("e") or {}).get("res")
-                        if r and r.get("def"):
-                            names.add(F.norm(r["def"]).split("::")[-1])
-                ok2 = {"None", "SEMI"} <= names
+    tt = macrosep_truth(cx, tags[1]) if b2 is not None else None
+    ok2 = tt is not None and tt["undecided"] == 0 and tt["true"].get("None") == tt["true"].get("SEMI")
     cx.ob(rule, "needs_macro_sep|none-equals-semi", ok2, b2["span"] if b2 else "",
-          "needs_macro_sep treats None and SEMI alike" if ok2 else "needs_macro_sep distinguishes 'no previous token' from ';'")
-    cx.count(rule, "sites", 2)
+          "needs_macro_sep treats 'no previous token' exactly like ';' for every token type" if ok2 else
+          "needs_macro_sep distinguishes 'no previous token' from ';' (or could not be evaluated)")
+    cx.count(rule, "sites", 1)
